@@ -12,13 +12,13 @@ import (
 	"sync"
 	"time"
 
-	"go.uber.org/zap"
 	"golang.org/x/crypto/ocsp"
 
 	"github.com/gr33nbl00d/caddy-revocation-validator/config"
 	repoocsp "github.com/gr33nbl00d/caddy-revocation-validator/ocsp"
 
 	"verif/harness/lab/der"
+	"verif/harness/lab/l2"
 	"verif/harness/lab/origin"
 	"verif/harness/lab/pki"
 	"verif/harness/lab/report"
@@ -51,7 +51,7 @@ func (l *lab) set(serial *big.Int, body []byte) {
 
 func newChecker(strict bool, cache time.Duration) *repoocsp.OCSPRevocationChecker {
 	c := &repoocsp.OCSPRevocationChecker{}
-	_ = c.Provision(&config.OCSPConfig{OCSPAIAStrict: strict, DefaultCacheDurationParsed: cache, TrustedResponderCerts: []*x509.Certificate{}}, zap.NewNop())
+	_ = c.Provision(&config.OCSPConfig{OCSPAIAStrict: strict, DefaultCacheDurationParsed: cache, TrustedResponderCerts: []*x509.Certificate{}}, l2.DebugLogger())
 	return c
 }
 
@@ -134,7 +134,7 @@ func main() {
 	// signed by the leaf's own key and is bound to the leaf's serial)
 	type verdict struct {
 		strictErr, strictRev, cachedAnswer, cachedRev, lenErr, lenRev bool
-		hits2                                                  int
+		hits2                                                         int
 	}
 	protocol := func(build func(leaf *pki.CA, serial *big.Int) []byte) verdict {
 		var v verdict
